@@ -1,6 +1,6 @@
 SPECIFICATION Spec
 CONSTANTS
-  MaxRanges = 4
+  MaxRanges = 3
   Starts = {0, 2, 4, 6}
   MaxQueries = 1
   NumericAcross = TRUE
@@ -8,6 +8,6 @@ INVARIANT TypeOK
 INVARIANT SelectsAllowed
 INVARIANT OrderIndependent
 INVARIANT DefaultOnlyBelow
-INVARIANT DerivFromSelectedButF30
+INVARIANT DerivFromSelected
 INVARIANT SortedOK
 INVARIANT NoStuck
